@@ -10,13 +10,16 @@ Driver for C02: the simple-cache model, the iterator model and the TTL model beh
   iter <cond> <ttl>        start an iterator case               -> ok
   runs <run>*              body of run 0,1,…                    -> ok      run  = <step>,<step>,…/<findur>  (steps `-` = none); step = beh
   adv <dt>                 time passes                          -> ok
-  call <k>                 simple: a call with key k            -> model=<res> hit|run     res = v<n>.<i> | n | f<j> | x<c>.<n> | x<c>p<payload>.<n>
+  call <k> [lost|cut]      simple: a call with key k            -> model=<res> hit|run     res = v<n>.<i> | n | f<j> | x<c>.<n> | x<c>p<payload>.<n>
+                           lost: protected call whose caller is cancelled while the function runs -> model=lost run (or a hit)
+                           cut: unprotected call cancelled as the function starts to work         -> model=lost cut (or a hit)
   it <k> [<consumer>]      iterator: a call with key k          -> model=<res>,<res>,…|- hit|run
                            consumer: absent = drains the stream | t<n> = receives n >= 1 elements, then closes / drops the stream
                            | c<n> = cancelled while the generator works on its step n (after n items; on a hit: drains)
   ttl <ttl>  [<k> <r>]     ttl_to_seconds of a spelling         -> model=<ticks>|E
 
   cond = all | nn | we:<c>+<c>… | oe:<c>+… | tc:<limit> | fn:<6 letters T F y z X for val,none,falsy,exc0,exc1,exc2>
+       | tc:<limit>&<cond>  (time_condition together with a condition)
   ttl  = plain | ck:<plain>,<plain>,… (callable of the key; last repeats) | cr:<plain>×4 (callable of the result kind val,none,falsy,exc)
   plain = i<secs> | f<ticks> | d<ticks> | s<hex of the ascii string>
 -/
@@ -70,7 +73,7 @@ def parseCondRes? : Char → Option CondRes
 def kindIdx : Kind → Nat
   | .val => 0 | .none => 1 | .falsy _ => 2 | .exc c _ => 3 + c
 
-def parseCnd? (s : String) : Option Decor.Cond :=
+def parseCnd1? (s : String) : Option Decor.Cond :=
   if s = "all" then some .all
   else if s = "nn" then some .notNone
   else if s.startsWith "we:" then (parseClasses? (s.drop 3).toString).map .withExc
@@ -80,6 +83,17 @@ def parseCnd? (s : String) : Option Decor.Cond :=
     let tbl ← allSome ((s.drop 3).toString.toList.map parseCondRes?)
     if tbl.length ≠ 6 then none else pure (.fn fun k => nthOrLast (.bool true) tbl (kindIdx k))
   else none
+
+def parseCnd? (s : String) : Option Decor.Cond :=
+  match s.splitOn "&" with
+  | [c] => parseCnd1? c
+  | [t, c] =>
+    if t.startsWith "tc:" then do
+      let limit ← (t.drop 3).toString.toNat?
+      let inner ← parseCnd1? c
+      pure (.slowerAnd limit inner)
+    else none
+  | _ => none
 
 def parseKind? (s : String) : Option Kind :=
   match s.toList with
@@ -158,13 +172,16 @@ def step (m : Mode) (line : String) : Mode × String :=
     | .simple cfg sc s, some dt => (.simple cfg sc (Simple.step cfg (fun n => sc.getD n ⟨.val, 0⟩) s (.adv dt)).1, "ok")
     | .iter cfg sc s, some dt => (.iter cfg sc (Iter.step cfg (fun n => sc.getD n ⟨[], 0⟩) s (.adv dt)).1, "ok")
     | _, _ => (m, "bad-op")
-  | ["call", k] =>
-    match m, k.toNat? with
-    | .simple cfg sc s, some k =>
-      match Simple.step cfg (fun n => sc.getD n ⟨.val, 0⟩) s (.call k) with
+  | "call" :: k :: how =>
+    let op? : Option (Nat → Simple.Op) := match how with
+      | [] => some .call | ["lost"] => some .lost | ["cut"] => some .cut | _ => none
+    match m, k.toNat?, op? with
+    | .simple cfg sc s, some k, some op =>
+      match Simple.step cfg (fun n => sc.getD n ⟨.val, 0⟩) s (op k) with
       | (s', .got r cached) => (.simple cfg sc s', s!"model={showRes r} {if cached then "hit" else "run"}")
+      | (s', .lost executed) => (.simple cfg sc s', s!"model=lost {if executed then "run" else "cut"}")
       | (s', .unit) => (.simple cfg sc s', "bad-op")
-    | _, _ => (m, "bad-op")
+    | _, _, _ => (m, "bad-op")
   | "it" :: k :: cons =>
     match m, k.toNat?, parseConsumer? cons with
     | .iter cfg sc s, some k, some cs =>
